@@ -590,3 +590,68 @@ pub fn spaces_axes(ctx: &Ctx, base: &BaseTables) {
     ctx.run.count("axes_tables", (n * n * n) as u64);
     ctx.run.count("axes_group_selections", counter.load(std::sync::atomic::Ordering::Relaxed));
 }
+
+/// Format-2 tables in which NON-FINAL entries carry code point bits but encode the explicit empty
+/// sparse bit set (one header byte, tree height 0, every branch factor code, with and without a bias
+/// field). Such an entry is a wildcard in the code point dimension; what follows it must still be
+/// parsed from the right byte.
+pub fn spaces_explicit_empty(ctx: &Ctx, base: &BaseTables) {
+    let defs = defs_f2(true);
+    let sds: Vec<_> = defs.iter().map(to_subset_definition).collect();
+    let pairs = subset_pairs(&defs);
+    let mut empties: Vec<E2> = vec![];
+    for (bias_kind, bias) in [(0u8, 0u32), (1, 5), (2, 80_000)] {
+        for bf_code in 0..4u8 {
+            for ignored in [false, true] {
+                let mut e = E2::plain();
+                e.cps = Cps::Empty { bias_kind, bias, bf_code };
+                e.ignored = ignored;
+                empties.push(e.clone());
+                // with features in front of the code point field as well
+                e.fds = true;
+                e.features = vec![LIGA];
+                empties.push(e);
+            }
+        }
+    }
+    let followers = {
+        let mut v = vec![];
+        for s in own_shapes(false) {
+            v.push(s.clone());
+            let mut i = s;
+            i.id = IdSpec::Delta(3);
+            v.push(i);
+        }
+        v
+    };
+    let mut tables: Vec<T2> = vec![];
+    for e in &empties {
+        // final position too (the baseline), then non-final in 2- and 3-entry tables
+        tables.push(t2_of(vec![e.clone()]));
+        for f in &followers {
+            tables.push(t2_of(vec![e.clone(), f.clone()]));
+            for ch in [Some((false, vec![0u32])), Some((true, vec![0, 1]))] {
+                let mut last = followers[1].clone();
+                last.children = ch;
+                tables.push(t2_of(vec![e.clone(), f.clone(), last]));
+            }
+            tables.push(t2_of(vec![f.clone(), e.clone(), followers[2].clone()]));
+        }
+        for e2 in empties.iter().step_by(5) {
+            tables.push(t2_of(vec![e.clone(), e2.clone(), followers[3].clone()]));
+        }
+    }
+    ctx.run.count("f2_tables_explicit_empty_code_point_sets", tables.len() as u64);
+    ctx.run.sample(json!({"space":"f2-empty","table": tables[9]}));
+    let (tables, defs, sds, pairs) = (&tables, &defs, &sds, &pairs);
+    let chunk = 16;
+    par_for(tables.len().div_ceil(chunk), |c| {
+        let mut l = Local::default();
+        for i in c * chunk..((c + 1) * chunk).min(tables.len()) {
+            let t = TableModel::F2(tables[i].clone());
+            let fc = FontCase { kind: "f2-empty", ift: Some(&t), iftx: None };
+            check_font(ctx, base, &fc, defs, sds, pairs, &mut l);
+        }
+        ctx.merge(l);
+    });
+}
